@@ -625,7 +625,6 @@ impl Epoch {
                     if &s[idx..idx + 1] == "-" {
                         offset_sign = -1;
                     }
-                    prev_idx += 1;
                 }
             }
         }
